@@ -34,7 +34,13 @@ def run_queue(tier, seed):
     rep = common.load_report(rp)
     log(f"[C16] queue: {r.distinct} spec states, {rep['evaluations']} sequences replayed, {len(rep['failures'])} mismatches")
     common.handle_failures(PROP, rep["failures"], "queue_failure")
-    return {"queue_spec_states": r.distinct, "queue_sequences_replayed": rep["evaluations"], "queue_sample": rep["samples"][:1], "queue_max_ops": maxops, "queue_sequences_enumerated": total_cases}
+    if rep["counters"].get("queue_concurrent_rounds", 0) < 300:
+        raise common.ToolError("queue_replay: the concurrent-sender phase did not run")
+    return {"queue_concurrent_rounds": rep["counters"]["queue_concurrent_rounds"],
+            "queue_concurrent_rule": "4 racing sender threads per round (300 rounds on sync::prunable_mpsc with the BFT selection rule over cheap values and a dawdling selection "
+                                     "function, 6 rounds on the real create_input_channel() with signed votes); after the race the queue content must satisfy OnePerSenderKind, OnlyValid, "
+                                     "KeepsMax, NothingLost of PrunableQueue.tla (every interleaving of atomic sends is a sequence TLC checked)",
+            "queue_spec_states": r.distinct, "queue_sequences_replayed": rep["evaluations"], "queue_sample": rep["samples"][:1], "queue_max_ops": maxops, "queue_sequences_enumerated": total_cases}
 
 
 def replay(c):
